@@ -1409,12 +1409,18 @@ func (bc *BlockChain) reorg(oldBlock, newBlock *types.Block) error {
 	var addedTxs types.Transactions
 	var err error
 	for i := len(newChain) - 1; i >= 0; i-- {
-		// insert the block in the canonical way, re-writing history
-		bc.insert(newChain[i])
-		// write lookup entries for hash based transaction/receipt searches
-		if e := WriteTxLookupEntries(bc.db, newChain[i]); e != nil {
-			err = fmt.Errorf("reorg: failed to write lookup metadata: %v", e)
-			break
+		// The new head block itself (newChain[0]) is not inserted here: its header
+		// and body are still in the caller's unflushed batch, and the head pointer
+		// must never name a block that is not on disk yet. WriteBlockWithState
+		// inserts it (and writes its lookup entries) once the batch is flushed.
+		if i > 0 {
+			// insert the block in the canonical way, re-writing history
+			bc.insert(newChain[i])
+			// write lookup entries for hash based transaction/receipt searches
+			if e := WriteTxLookupEntries(bc.db, newChain[i]); e != nil {
+				err = fmt.Errorf("reorg: failed to write lookup metadata: %v", e)
+				break
+			}
 		}
 		addedTxs = append(addedTxs, newChain[i].Transactions()...)
 	}
